@@ -95,6 +95,7 @@ public:
             return -1;
         r0->offset = r1.offset;
         r0->length = r1.length;
+        it->cond.notify_all();  // waiters must re-evaluate against the new range
         return 0;
     }
 
